@@ -121,7 +121,7 @@ def codec_unit(uid, entry, shape, clause, functions, mutants, cls="full-domain",
     u = {"id": uid, "props": ["C09", "C10"] if entry == "h_enc" else ["C09"], "tier": tier, "class": cls, "clause": clause,
          "src": ["bytecode.c", "asm.c"], "link": ["wrap.c"], "link_keep": {"wrap.c": WRAP},
          "harness": ["asm_codec.c"], "entry": entry, "mode": "plain", "nanbox": False, "functions": functions,
-         "defines": shape_defines(shape) + (extra_def or []),
+         "defines": shape_defines(shape) + (extra_def or []) + (["-DAC_RT"] if entry == "h_rt" else []),
          "replace_calls": RC_CODEC, "checks": CHECKS, "unwind": unwind, "unwinding_assertions": True, "timeout": timeout,
          "assumes": [A_LAYOUT, A_LONGJMP, A_TUPLE, A_CSYM, A_FORMAT, A_NONANBOX] + ([A_SLOTCOUNT0] if entry != "h_dec" else []),
          "mutants": mutants}
@@ -150,7 +150,7 @@ for name, (ops, slots, text) in SHAPES.items():
                    ["janet_asm_decode_instruction", "janet_asm_reverse_lookup"], DEC_MUT[name] + ([M_BRK] if name == "0" else [])))
     RT_CL = ("shape JINT_%s - %s: read_instruction accepts the tuple janet_asm_decode_instruction prints for ANY word of the shape (any nesting depth of "
              "the function being assembled) and returns the same word (breakpoint flag cleared)" % (name, text))
-    rt_mut = [ENC_MUT[name][0]] if name != "0" else [DEC_MUT["0"][0]]
+    rt_mut = [dict(ENC_MUT[name][0], expect="accepts every instruction|gives back the word")] if name != "0" else [DEC_MUT["0"][0]]
     if name == "S":
         add(codec_unit("asm.codec.rt.s", "h_rt", name, RT_CL, ["read_instruction", "doarg", "doarg_1", "janet_asm_decode_instruction"], rt_mut),
             failing="FINDING asm-S-slot-16-bit: the single slot operand of JINT_S instructions is a 24-bit field (vm.c D = *pc >> 8, janet.h 'Slot(3)', "
@@ -181,6 +181,256 @@ add({"id": "asm.optable", "props": ["C09"], "tier": "quick", "class": "full-doma
      "assumes": ["janet_strbinsearch (util.c) is a binary search that is correct on strictly sorted tables (not re-proved here)"],
      "mutants": [M("opcode-mask-8-bits", "    uint32_t opcode = instr & 0x7F;\n    for (i = 0; i < sizeof(janet_ops)", "    uint32_t opcode = instr & 0xFF;\n    for (i = 0; i < sizeof(janet_ops)", "reverse lookup"),
                  M("table-unsorted", "    {\"addim\", JOP_ADD_IMMEDIATE},\n    {\"band\", JOP_BAND},", "    {\"band\", JOP_BAND},\n    {\"addim\", JOP_ADD_IMMEDIATE},", "strictly sorted")]})
+
+
+# ------------------------------------------------------------------------------------------------------------------
+# 2. doarg_1 per argument kind, doarg range check
+# ------------------------------------------------------------------------------------------------------------------
+A_TABLES = ("janet_table_get replaced by a recording stub: returns nil (absent) or a planted integer 0 <= i < INT32_MAX - representation invariant of "
+            "the assembler's four tables (janet_asm1 / janet_asm_addenv only store janet_wrap_integer(index >= 0); labels are keyed by keywords, "
+            "slots and environments by symbols; the put side is asserted in the asm.asm1.* units)")
+A_BINSEARCH = "janet_strbinsearch(type_aliases, key) returns NULL or an entry of type_aliases (the entry named key; util.c, not re-proved here)"
+A_ADDENV = "janet_asm_addenv replaced by an assertion that it is unreachable (it is: only a table entry -1 leads to it and no entry is negative)"
+RC_DOARG = ["janet_asm_longjmp:ad_longjmp_stub", "janet_table_get:ad_table_get_stub", "janet_strbinsearch:ad_strbinsearch_stub",
+            "janet_asm_addenv:ad_addenv_stub"]
+DOARG1_CLAUSE = ("doarg_1 with argument kind %s, for an ARBITRARY Janet value (any type, any payload): it returns only for an int32-valued number (taken literally)%s; "
+                 "every other value raises; names are looked up once, only in the table of that kind of the assembler of the function being assembled; "
+                 "%s; no read outside the argument")
+KINDS = [
+    ("slot", "SLOT", 0, ", or a symbol found in a->slots", "def->slotcount becomes max(old, slot + 1) without overflow",
+     [M("slotcount-off-by-one", "    if (argtype == JANET_OAT_SLOT && ret >= a->def->slotcount)", "    if (argtype == JANET_OAT_SLOT && ret > a->def->slotcount)", "raises slotcount"),
+      M("slot-names-from-defs", "        case JANET_OAT_SLOT:\n            c = &a->slots;", "        case JANET_OAT_SLOT:\n            c = &a->defs;", "table of its own kind")]),
+    ("environment", "ENVIRONMENT", 1, ", or a symbol found in a->envs", "slotcount unchanged",
+     [M("env-names-from-parent", "        case JANET_OAT_ENVIRONMENT:\n            c = &a->envs;", "        case JANET_OAT_ENVIRONMENT:\n            c = a->parent ? &a->parent->envs : &a->envs;", "function being assembled only")]),
+    ("constant", "CONSTANT", 2, " (constants have no names)", "slotcount unchanged",
+     [M("constant-names-from-slots", "        default:\n            c = NULL;\n            break;\n        case JANET_OAT_SLOT:", "        default:\n            c = &a->slots;\n            break;\n        case JANET_OAT_SLOT:", "a symbol names a slot")]),
+    ("integer", "INTEGER", 3, " (immediates have no names)", "slotcount unchanged",
+     [M("int-range-check-dropped", "            if (janet_checkintrange(y)) {\n                ret = (int32_t) y;", "            if (y == y) {\n                ret = (int32_t) y;", "integer in the int32 range"),
+      M("immediate-counts-as-slot", "    if (argtype == JANET_OAT_SLOT && ret >= a->def->slotcount)", "    if (ret >= a->def->slotcount)", "only slot arguments change slotcount")]),
+    ("type", "TYPE", 4, ", a type keyword (mask of its alias) or a tuple of integers and type keywords (OR of the elements)", "slotcount unchanged",
+     [M("typeset-keeps-last-only", "                    ret |= doarg_1(a, JANET_OAT_SIMPLETYPE, t[i]);", "                    ret = doarg_1(a, JANET_OAT_SIMPLETYPE, t[i]);", "OR of its elements"),
+      M("typeset-reads-one-past", "                for (i = 0; i < janet_tuple_length(t); i++) {\n                    ret |= doarg_1", "                for (i = 0; i <= janet_tuple_length(t); i++) {\n                    ret |= doarg_1", "bounds|pointer|OR of its|one alias search|unwinding")]),
+    ("simpletype", "SIMPLETYPE", 5, " or a type keyword (mask of its alias); a tuple raises (no nested type sets)", "slotcount unchanged",
+     [M("nested-typeset-accepted", "            if (argtype == JANET_OAT_TYPE) {\n                int32_t i = 0;", "            if (argtype == JANET_OAT_TYPE || argtype == JANET_OAT_SIMPLETYPE) {\n                int32_t i = 0;", "a tuple is a type set|recursion|unwinding|pointer")]),
+    ("label", "LABEL", 6, ", or a keyword found in a->labels: result = label index - index of the instruction being assembled (the offset JOP_JUMP* add to pc)", "slotcount unchanged",
+     [M("offset-sign", "                    ret = janet_unwrap_integer(result) - a->bytecode_count;", "                    ret = janet_unwrap_integer(result) + a->bytecode_count;", "relative to the instruction|overflow"),
+      M("label-absolute", "                    ret = janet_unwrap_integer(result) - a->bytecode_count;", "                    ret = janet_unwrap_integer(result);", "relative to the instruction")]),
+    ("funcdef", "FUNCDEF", 7, ", or a symbol found in a->defs", "slotcount unchanged",
+     [M("def-names-from-slots", "        case JANET_OAT_FUNCDEF:\n            c = &a->defs;", "        case JANET_OAT_FUNCDEF:\n            c = &a->slots;", "table of its own kind")]),
+]
+FIND_SLOT_OVF = ("FINDING asm-slotcount-increment-overflow (formal UB only): doarg_1 computes `a->def->slotcount = ret + 1` BEFORE doarg range-checks the slot, so "
+                 "the slot number 2147483647 overflows a signed int: (asm '{:bytecode [(ret 2147483647)]}). The assembly is then rejected ('too large') and the "
+                 "definition discarded, so no misbehaviour is observable on the pinned build. Failing obligations doarg_1.overflow 'arithmetic overflow on signed + "
+                 "in (int32_t)ret + 1' and h_doarg1 'a slot argument raises slotcount to slot + 1'.")
+for low, up, num, extra, sc, muts in KINDS:
+    u = {"id": "asm.doarg1.%s" % low, "props": ["C10"], "tier": "quick", "class": "bounded",
+         "bound": "type-set tuples of at most 2 elements (element values arbitrary); everything else unbounded",
+         "clause": DOARG1_CLAUSE % (low, extra, sc),
+         "src": ["bytecode.c", "asm.c"], "harness": ["asm_doarg.c"], "entry": "h_doarg1", "mode": "plain", "nanbox": False,
+         "defines": ["-DAD_KIND=JANET_OAT_%s" % up, "-DAD_K=%d" % num], "functions": ["doarg_1"],
+         "replace_calls": RC_DOARG, "checks": CHECKS, "unwind": 4, "unwinding_assertions": True, "timeout": 300,
+         "assumes": [A_LONGJMP, A_TABLES, A_BINSEARCH, A_ADDENV, A_FORMAT, A_NONANBOX, A_SLOTCOUNT0], "mutants": muts}
+    if low != "type":
+        u["class"] = "full-domain" if low not in ("type",) else "bounded"
+        if u["class"] == "full-domain":
+            del u["bound"]
+    add(u, failing=FIND_SLOT_OVF if low == "slot" else None)
+# the slot kind without the one overflowing value, so that the rest of its contract stays proved
+u = dict([x for x in units if x["id"] == "asm.doarg1.slot"][0])
+u.pop("disabled_reason", None)
+u.pop("expected_to_fail", None)
+u.update({"id": "asm.doarg1.slot.below-max", "class": "bounded", "bound": "numeric slot arguments other than 2147483647 (that value: disabled unit asm.doarg1.slot)",
+          "defines": u["defines"] + ["-DAD_NOT_INTMAX"]})
+add(u)
+add({"id": "asm.doarg.range", "props": ["C10"], "tier": "quick", "class": "full-domain",
+     "clause": "doarg, for every (position, width, signedness) read_instruction uses and ANY int32 argument: it returns only if the argument is inside the range of an "
+               "nbytes-wide signed/unsigned field; the result has no bit outside the operand's own field (nothing is truncated into a neighbouring field) and the field "
+               "holds the value in two's complement",
+     "src": ["bytecode.c", "asm.c"], "harness": ["asm_doarg.c"], "entry": "h_doarg_range", "mode": "plain", "nanbox": False,
+     "defines": ["-DAD_KIND=JANET_OAT_INTEGER", "-DAD_K=3"], "functions": ["doarg"],
+     "replace_calls": ["janet_asm_longjmp:ad_longjmp_stub", "doarg_1:ad_doarg1_stub"], "checks": CHECKS, "unwind": 4, "unwinding_assertions": True, "timeout": 300,
+     "assumes": [A_LONGJMP, A_FORMAT, "doarg_1 replaced by a stub returning an arbitrary int32 (its contract: units asm.doarg1.*)"],
+     "mutants": [M_DOARG_MAX, M_DOARG_NOMIN,
+                 M("upper-bound-dropped", "    if (arg > max)\n        janet_asm_errorv", "    if (0)\n        janet_asm_errorv", "outside the range"),
+                 M("signed-range-not-halved", "    int32_t max = (1 << ((nbytes << 3) - hassign)) - 1;", "    int32_t max = (1 << (nbytes << 3)) - 1;", "outside the range")]})
+
+
+# ------------------------------------------------------------------------------------------------------------------
+# 3. janet_asm1 structure, one unit per section of the description
+# ------------------------------------------------------------------------------------------------------------------
+RC_STRUCT = ["janet_gcalloc:as_gcalloc_stub", "janet_table_init:as_table_init_stub", "janet_table_deinit:as_table_deinit_stub",
+             "janet_table_put:as_table_put_stub", "janet_table_get:as_table_get_stub", "janet_struct_get:as_struct_get_stub",
+             "janet_csymbol:as_csymbol_stub", "janet_indexed_view:as_indexed_view_stub", "janet_keyeq:as_keyeq_stub",
+             "janet_to_string:as_to_string_stub", "janet_strbinsearch:as_strbinsearch_stub", "read_instruction:as_read_instruction_stub",
+             "janet_asm_longjmp:as_longjmp_stub", "_setjmp:as_setjmp_stub", "janet_verify:as_verify_stub", "janet_asm1:as_asm1_stub"]
+A_STRUCT = [
+    "description = table/struct whose fields are returned by a stub of janet_table_get / janet_struct_get keyed by the keyword text (janet_ckeyword(s) is represented by s); "
+    "lists are (count, data) objects handed out by a stub of janet_indexed_view for arrays and tuples; element tuples are separate blocks of exactly their length; "
+    "every other heap value is an opaque pointer",
+    "janet_gcalloc returns a fresh block of the requested size (stub); malloc/realloc are CBMC's models and do not fail",
+    "janet_table_init/put/deinit replaced by recording stubs that assert the table discipline (own live tables, entries 0 <= i < INT32_MAX, key kinds)",
+    "read_instruction replaced by a stub returning an arbitrary word (or raising via its own errors - proved in asm.codec.enc.*); it asserts bytecode_count = index of the instruction",
+    "janet_strbinsearch(janet_ops, name) returns NULL or an entry of janet_ops (util.c, not re-proved)",
+    "janet_verify replaced by a stub that asserts its precondition (blocks match lengths), records the call and returns an arbitrary verdict (its contract: unit bytecode.verify)",
+    "the nested janet_asm1 call is replaced by the contract proved here (raises through the parent or returns OK with a fresh definition)",
+    "setjmp/longjmp: janet_asm_longjmp does not return; _setjmp returns 0, or 1 with an arbitrary error message to exercise the handler",
+    "janet_keyeq returns an arbitrary truth value for keywords, 0 otherwise; janet_to_string returns an opaque string; janet_checkint (util.c) and janet_def_addflags (compile.c) are the real code",
+    A_FORMAT, A_NONANBOX]
+ASM1_COMMON = ("janet_asm1 on a description whose %s arbitrary (lists of up to 2 arbitrary elements, element tuples of 0..5 arbitrary values) and :bytecode arbitrary: every read is inside the "
+               "description, every write inside the block allocated for it, no signed overflow; status OK only after janet_verify was called once on the returned definition "
+               "with every array block matching its length and said 0, nothing verified is changed afterwards; an error result carries no definition; the name tables are "
+               "released exactly once on every way out; table entries are integers 0 <= i < INT32_MAX under keys of the right kind")
+M_VERIFY_IGNORED = M("verdict-ignored", "    if (verify_status) {\n        janet_asm_errorv", "    if (0) {\n        janet_asm_errorv", "only after janet_verify accepted")
+M_NO_VERIFY = M("verify-skipped", "    int verify_status = janet_verify(def);", "    int verify_status = 0;", "only after janet_verify accepted")
+M_LEAK_TABLES = M("tables-not-released-on-success", "    /* Finish everything and return funcdef */\n    janet_asm_deinit(&a);", "    /* Finish everything and return funcdef */", "released exactly once")
+M_HANDLER_DEF = M("error-result-keeps-definition", "        result.funcdef = NULL;\n        result.error = a.errmessage;", "        result.funcdef = def;\n        result.error = a.errmessage;", "carries no definition")
+M_HANDLER_LEAK = M("tables-not-released-before-propagating", "        if (NULL != a.parent) {\n            janet_asm_deinit(&a);", "        if (NULL != a.parent) {", "released before an error is passed")
+
+
+def struct_unit(uid, secs, what, mutants, extra_def=None, bound_extra="", failing=None, tier="quick", timeout=600, unwind=17):
+    u = {"id": uid, "props": ["C10"], "tier": tier, "class": "bounded",
+         "bound": "lists of at most 2 elements, element tuples of at most 5 values (values arbitrary); one nesting level (the nested call is its contract)" + bound_extra,
+         "clause": ASM1_COMMON % what,
+         "src": ["bytecode.c", "asm.c"], "link": ["wrap.c", "util.c", "compile.c"],
+         "link_keep": {"wrap.c": ["janet_wrap_number", "janet_wrap_nil", "janet_wrap_keyword"], "util.c": ["janet_checkint"], "compile.c": ["janet_def_addflags"]},
+         "harness": ["asm_struct.c"], "entry": "h_asm1", "mode": "plain", "nanbox": False, "functions": ["janet_asm1", "janet_get1", "janet_asm_deinit"],
+         "defines": ["-DAS_SEC_%s" % x for x in secs] + (extra_def or []),
+         "replace_calls": RC_STRUCT, "replace_calls2": ["janet_asm1__entry:janet_asm1"],
+         "checks": CHECKS, "unwind": unwind, "unwinding_assertions": True, "timeout": timeout, "object_bits": 10,
+         "assumes": A_STRUCT, "mutants": mutants}
+    add(u, failing=failing)
+
+
+FIND_ARITY_OVF = ("FINDING asm-arity-overflow (formal UB only): `def->slotcount = !!(flags & VARARG) + def->arity` overflows for :arity 2147483647 with :vararg true: "
+                  "(asm '{:arity 2147483647 :vararg true :bytecode [(retn)]}) - the wrapped negative slotcount is then rejected by janet_verify ('invalid assembly (2)'), no "
+                  "misbehaviour on the pinned build. Failing obligation janet_asm1.overflow 'arithmetic overflow on signed + in ... + def->arity'.")
+FIND_SM = ("FINDING asm-sourcemap-short-tuple (C10, reproduced with valgrind): janet_asm1 reads tup[0] and tup[1] of every :sourcemap entry without looking at the tuple's length: "
+           "(asm {:bytecode ['(retn)] :sourcemap [(tuple)]}) reads 16 bytes past the empty tuple (valgrind: Invalid read of size 8 at asm.c:717 and :720, 0 bytes after a block of size 32). "
+           "Failing obligations janet_asm1.pointer_dereference 'dereference failure: pointer outside object bounds in tup[...]'.")
+FIND_SYM = ("FINDING asm-symbolmap-short-tuple (C10, reproduced with valgrind): janet_asm1 reads tup[0..3] of every :symbolmap entry without looking at the tuple's length: "
+            "(asm {:bytecode ['(retn)] :symbolmap [(tuple 1)]}) reads past the one-element tuple (valgrind: Invalid read at asm.c:754-765). "
+            "Failing obligations janet_asm1.pointer_dereference 'dereference failure: pointer outside object bounds in tup[...]'.")
+FIND_DEPTH = ("FINDING asm-unbounded-recursion (C10/C19, reproduced: SIGSEGV): janet_asm1 recurses into every element of :closures/:defs with no depth limit; a description nested "
+              "10000 deep overflows the native stack: (var s {:bytecode ['(retn)]}) (for i 0 10000 (set s {:bytecode ['(retn)] :closures [s]})) (asm s) -> Segmentation fault. "
+              "Failing obligation as_asm1_stub.assertion 'no nested definition is assembled beyond the recursion limit'.")
+
+struct_unit("asm.asm1.source-type", ["SOURCE_TYPE"], "top-level value is ANYTHING (number, string, nil, table, ...), its fields nil,",
+            [M("source-type-check-dropped", "    janet_asm_assert(&a,\n                     janet_checktype(s, JANET_STRUCT) ||\n                     janet_checktype(s, JANET_TABLE),",
+               "    janet_asm_assert(&a,\n                     1 ||\n                     janet_checktype(s, JANET_TABLE),", "bytecode expected|REACH|reads the description|carries no|pointer"),
+             M_HANDLER_DEF, M_HANDLER_LEAK])
+struct_unit("asm.asm1.header", ["HEADER"], ":name :arity :min-arity :max-arity :vararg :structarg :source are",
+            [M_VERIFY_IGNORED, M_NO_VERIFY], failing=FIND_ARITY_OVF)
+struct_unit("asm.asm1.header.below-max", ["HEADER"], ":name :arity :min-arity :max-arity :vararg :structarg :source are",
+            [M_VERIFY_IGNORED, M_NO_VERIFY, M_LEAK_TABLES], extra_def=["-DAS_ARITY_BELOW_MAX"], bound_extra="; :arity other than 2147483647 (that value: disabled unit asm.asm1.header)")
+struct_unit("asm.asm1.slots", ["SLOTS"], ":slots (names and tuples of names) is",
+            [M("slot-alias-non-symbol-accepted", "                    if (!janet_checktype(t[j], JANET_SYMBOL))\n                        janet_asm_error(&a, \"slot names must be symbols\");", "", "slot names are symbols"),
+             M("slot-alias-loop-one-past", "                for (j = 0; j < janet_tuple_length(t); j++) {", "                for (j = 0; j <= janet_tuple_length(t); j++) {", "pointer|bounds|unwinding")])
+struct_unit("asm.asm1.constants", ["CONSTANTS"], ":constants is",
+            [M("constants-block-one-short", "        def->constants = janet_malloc(sizeof(Janet) * (size_t) count);", "        def->constants = janet_malloc(sizeof(Janet) * (size_t) (count - (count > 0)));", "pointer|bounds|block of constants_length"),
+             M("constants-length-not-set", "        def->constants_length = count;\n        def->constants = janet_malloc", "        def->constants_length = count + 1;\n        def->constants = janet_malloc", "block of constants_length")])
+struct_unit("asm.asm1.closures", ["CLOSURES"], ":closures / :defs are",
+            [M("defs-capacity-not-grown", "            if (a.defs_capacity < newlen) {", "            if (a.defs_capacity < newlen - 1) {", "pointer|bounds|block of defs_length"),
+             M("defs-length-off-by-one", "            def->defs_length = newlen;", "            def->defs_length = newlen + 1;", "block of defs_length|pointer|bounds"),
+             M("nested-with-grandparent", "            subres = janet_asm1(&a, arr[i], flags);", "            subres = janet_asm1(a.parent, arr[i], flags);", "with this assembler as its parent")])
+struct_unit("asm.asm1.bytecode", [], "other fields are nil - :bytecode (labels, instruction tuples, anything else) is",
+            [M("label-counts-as-instruction", "            if (janet_checktype(instr, JANET_KEYWORD)) {\n                janet_table_put(&a.labels, instr, janet_wrap_integer(blength));\n            } else if",
+               "            if (janet_checktype(instr, JANET_KEYWORD)) {\n                janet_table_put(&a.labels, instr, janet_wrap_integer(blength++));\n            } else if", "exactly bytecode_length instructions"),
+             M("bytecode-block-counts-tuples-minus-one", "        def->bytecode = janet_malloc(sizeof(uint32_t) * (size_t) blength);", "        def->bytecode = janet_malloc(sizeof(uint32_t) * (size_t) (blength - (blength > 0)));", "pointer|bounds|block of bytecode_length"),
+             M("empty-tuple-mnemonic-read", "                if (janet_tuple_length(t) == 0) {\n                    op = 0;", "                if (janet_tuple_length(t) < 0) {\n                    op = 0;", "pointer|bounds|has a mnemonic"),
+             M_VERIFY_IGNORED, M_LEAK_TABLES])
+struct_unit("asm.asm1.sourcemap", ["SOURCEMAP"], ":sourcemap is", [M_NO_VERIFY], failing=FIND_SM)
+struct_unit("asm.asm1.sourcemap.pairs", ["SOURCEMAP"], ":sourcemap is",
+            [M("sourcemap-length-check-dropped", "        janet_asm_assert(&a, count == def->bytecode_length, \"sourcemap must have the same length as the bytecode\");", "", "one entry per instruction|pointer|bounds"),
+             M("sourcemap-entry-type-check-dropped", "            JanetSourceMapping mapping;\n            if (!janet_checktype(entry, JANET_TUPLE)) {", "            JanetSourceMapping mapping;\n            if (0) {", "pointer|bounds")],
+            extra_def=["-DAS_TUPLE_MIN=2"], bound_extra="; entry tuples have at least 2 elements (shorter ones: disabled unit asm.asm1.sourcemap)")
+struct_unit("asm.asm1.symbolmap", ["SYMBOLMAP"], ":symbolmap is", [M_NO_VERIFY], failing=FIND_SYM)
+struct_unit("asm.asm1.symbolmap.quads", ["SYMBOLMAP"], ":symbolmap is",
+            [M("symbolmap-block-one-short", "        def->symbolmap = janet_malloc(sizeof(JanetSymbolMap) * (size_t)count);", "        def->symbolmap = janet_malloc(sizeof(JanetSymbolMap) * (size_t)(count - (count > 0)));", "pointer|bounds|block of symbolmap_length"),
+             M("symbolmap-entry-type-check-dropped", "            JanetSymbolMap ss;\n            if (!janet_checktype(entry, JANET_TUPLE)) {", "            JanetSymbolMap ss;\n            if (0) {", "pointer|bounds")],
+            extra_def=["-DAS_TUPLE_MIN=4"], bound_extra="; entry tuples have at least 4 elements (shorter ones: disabled unit asm.asm1.symbolmap)")
+struct_unit("asm.asm1.environments", ["ENVIRONMENTS"], ":environments is",
+            [M("environments-block-one-short", "            def->environments = janet_realloc(def->environments, def->environments_length * sizeof(int32_t));", "            def->environments = janet_realloc(def->environments, (def->environments_length - 1) * sizeof(int32_t));", "pointer|bounds|block of environments_length"),
+             M("environment-non-integer-accepted", "            if (!janet_checkint(arr[i])) {\n                janet_asm_error(&a, \"expected integer\");\n            }\n            def->environments[i]", "            def->environments[i]", "conversion|overflow|REACH|pointer", )])
+struct_unit("asm.asm1.depth-guard", ["CLOSURES"], ":closures / :defs are", [M_NO_VERIFY], extra_def=["-DAS_DEPTH_GUARD"],
+            bound_extra="; the assembler is nested arbitrarily deep (every parent has a parent)", failing=FIND_DEPTH)
+
+
+# ------------------------------------------------------------------------------------------------------------------
+# 3b. cfun_asm: an accepted definition becomes a function without taking the process down
+# ------------------------------------------------------------------------------------------------------------------
+FIND_THUNK = ("FINDING asm-environments-abort (C10, reproduced: process aborts): cfun_asm wraps every accepted definition with janet_thunk, which janet_assert()s "
+              "environments_length == 0 and abort()s otherwise; janet_asm1 copies :environments from the description and janet_verify does not look at it: "
+              "(asm '{:bytecode [(retn)] :environments [0]}) -> 'janet internal error ... tried to create thunk that needs upvalues', SIGABRT (not catchable with try). "
+              "Also hit by (asm (disasm f)) for a real closure: (def f ((fn [] (var x 1) (fn [] (fn [] x))))) (asm (disasm f)). "
+              "Failing obligation abort.assertion.1 'the process is never taken down (abort)'.")
+
+
+def cfun_unit(uid, extra_def, failing=None, bound=None):
+    u = {"id": uid, "props": ["C10"], "tier": "quick", "class": "bounded" if bound else "full-domain",
+         "clause": "cfun_asm (asm x): for any argument and any result of janet_asm (error, or a definition accepted by janet_verify with ANY environments_length) it returns "
+                   "a function of that definition or raises a catchable error with a message; abort()/exit() are never reached",
+         "src": ["bytecode.c", "asm.c"], "link": ["wrap.c"], "link_keep": {"wrap.c": ["janet_wrap_function"]},
+         "harness": ["asm_cfun.c"], "entry": "h_cfun_asm", "mode": "plain", "nanbox": False, "functions": ["cfun_asm", "janet_thunk"],
+         "defines": ["-DVC_OWN_EXIT"] + extra_def,
+         "replace_calls": ["janet_asm:cf_asm_stub", "janet_gcalloc:cf_gcalloc_stub", "janet_panics:cf_panics_stub", "janet_cstring:cf_cstring_stub"],
+         "checks": CHECKS, "unwind": 4, "unwinding_assertions": True, "timeout": 300,
+         "assumes": ["janet_asm replaced by its contract (asm.asm1.*): ERROR without definition, or OK with a definition; environments_length >= 0 arbitrary "
+                     "(janet_asm1 copies it from :environments, janet_verify does not constrain it)",
+                     "janet_gcalloc returns a fresh block; janet_panics / janet_panicf do not return (catchable error); janet_cstring returns a string (stub)"],
+         "mutants": [M("error-status-ignored", "    if (res.status != JANET_ASSEMBLE_OK) {\n        janet_panics", "    if (0) {\n        janet_panics", "pointer|function of the assembled"),
+                     M("null-message-raised", "        janet_panics(res.error ? res.error : janet_cstring(\"invalid assembly\"));", "        janet_panics(res.error);", "with a message")]}
+    if bound:
+        u["bound"] = bound
+    add(u, failing=failing)
+
+
+cfun_unit("asm.cfun.no-abort", [], failing=FIND_THUNK)
+cfun_unit("asm.cfun.no-abort.noenv", ["-DCF_NO_ENVIRONMENTS"], bound="definitions with environments_length == 0 (others: disabled unit asm.cfun.no-abort)")
+
+
+# ------------------------------------------------------------------------------------------------------------------
+# 4. janet_disasm followed by janet_asm1: field round trip
+# ------------------------------------------------------------------------------------------------------------------
+RC_DIS = ["janet_table:dd_table_stub", "janet_table_put:dd_table_put_stub", "janet_table_to_struct:dd_table_to_struct_stub", "janet_struct_get:dd_struct_get_stub",
+          "janet_table_get:dd_table_get_stub", "janet_table_init:dd_table_init_stub", "janet_table_deinit:dd_table_deinit_stub", "janet_array:dd_array_stub",
+          "janet_tuple_begin:dd_tuple_begin_stub", "janet_tuple_end:dd_tuple_end_stub", "janet_csymbol:dd_csymbol_stub", "janet_keyeq:dd_keyeq_stub",
+          "janet_to_string:dd_to_string_stub", "janet_gcalloc:dd_gcalloc_stub", "janet_asm_decode_instruction:dd_decode_stub", "read_instruction:dd_read_stub",
+          "janet_strbinsearch:dd_strbinsearch_stub", "janet_verify:dd_verify_stub", "_setjmp:dd_setjmp_stub", "janet_asm_longjmp:dd_longjmp_stub",
+          "janet_disasm:dd_disasm_stub", "janet_asm1:dd_asm1_stub"]
+A_DIS = [
+    "definition under test: 0 <= min_arity <= arity <= max_arity, arity < INT32_MAX (what the compiler and the assembler produce; janet_verify does not check min/max arity), "
+    "no breakpoint flag set in the bytecode (debugger state)",
+    "instruction codec replaced by the contract proved in asm.codec.*: janet_asm_decode_instruction(w) yields a tuple that read_instruction maps back to w; the mnemonic lookup "
+    "(janet_strbinsearch) finds an entry (asm.optable). NOT covered by that contract on the pinned tree: JINT_S slots >= 65536 and ldu/setu outside nested functions (disabled units asm.codec.rt.s / .ses)",
+    "nested definitions by induction: janet_disasm of a nested definition is an opaque description and the nested janet_asm1 maps it back to an equal definition (represented by the same object)",
+    "janet_verify accepts the reassembled definition (stub returns 0): it has equal fields; slotcount is recomputed from the operands (asm.codec.enc.*: covers every slot operand)",
+    "tables / structs / arrays / tuples / keywords: recording stubs with exact block sizes (janet_table, janet_table_put, janet_table_to_struct, janet_struct_get, janet_array, "
+    "janet_tuple_begin/end, janet_csymbol, janet_keyeq compares keyword text); janet_to_string of a string is that string (pp.c); janet_gcalloc returns a fresh block; "
+    "_setjmp returns 0 and janet_asm_longjmp is an assertion failure (the assembler must accept); assembler name tables are no-ops (asm.asm1.*)",
+    "janet_indexed_view, janet_checkint (util.c), janet_def_addflags (compile.c), janet_wrap_* (wrap.c) are the real code", A_NONANBOX]
+DIS_MUT = [
+    M("disasm-min-arity-prints-max", "static Janet janet_disasm_min_arity(JanetFuncDef *def) {\n    return janet_wrap_integer(def->min_arity);", "static Janet janet_disasm_min_arity(JanetFuncDef *def) {\n    return janet_wrap_integer(def->max_arity);", "same arity"),
+    M("disasm-constants-repeat-first", "        constants->data[i] = def->constants[i];", "        constants->data[i] = def->constants[0];", "identical constants"),
+    M("disasm-vararg-prints-structarg", "    return janet_wrap_boolean(def->flags & JANET_FUNCDEF_FLAG_VARARG);", "    return janet_wrap_boolean(def->flags & JANET_FUNCDEF_FLAG_STRUCTARG);", "vararg / structarg"),
+    M("disasm-symbolmap-death-is-birth", "        t[1] = janet_wrap_integer(ss.death_pc);", "        t[1] = janet_wrap_integer(ss.birth_pc);", "symbol map entries"),
+    M("disasm-environments-count-short", "    envs->count = def->environments_length;", "    envs->count = def->environments_length > 0 ? def->environments_length - 1 : 0;", "number of environments"),
+    M("asm-max-arity-ignored", "    def->max_arity = janet_checkint(x) ? janet_unwrap_integer(x) : def->arity;", "    def->max_arity = def->arity;", "same arity"),
+    M("asm-min-arity-reads-max-arity-key", "    x = janet_get1(s, janet_ckeywordv(\"min-arity\"));", "    x = janet_get1(s, janet_ckeywordv(\"max-arity\"));", "same arity|accepts the disassembly"),
+    M("asm-sourcemap-column-from-line", "            mapping.column = janet_unwrap_integer(tup[1]);", "            mapping.column = janet_unwrap_integer(tup[0]);", "source map entries"),
+    M("asm-defs-key-only-closures", "    if (janet_checktype(x, JANET_NIL)) {\n        x = janet_get1(s, janet_ckeywordv(\"defs\"));\n    }", "", "nested definitions"),
+]
+add({"id": "asm.roundtrip.fields", "props": ["C09"], "tier": "thorough", "class": "bounded",
+     "bound": "at most 2 instructions, constants, environments, nested definitions, symbol map entries (values arbitrary); nested definitions by induction",
+     "clause": "janet_disasm followed by janet_asm1: for any such definition the assembler accepts the disassembly and returns a definition with the same arity, min-arity, max-arity, "
+               "vararg/structarg flags, instruction words, constants (bit-identical), nested definitions (same order), environments, source map, symbol map, name and source; "
+               "all reads and writes of both functions in bounds. slotcount is NOT compared: the assembler ignores :slotcount and recomputes it (only 'covers the parameters' is asserted)",
+     "src": ["bytecode.c", "asm.c"], "link": ["wrap.c", "util.c", "compile.c"],
+     "link_keep": {"util.c": ["janet_checkint", "janet_indexed_view"], "compile.c": ["janet_def_addflags"]},
+     "harness": ["asm_disasm.c"], "entry": "h_roundtrip", "mode": "plain", "nanbox": False,
+     "functions": ["janet_disasm", "janet_asm1", "janet_disasm_bytecode", "janet_disasm_constants", "janet_disasm_sourcemap", "janet_disasm_symbolslots", "janet_disasm_environments", "janet_disasm_defs"],
+     "replace_calls": RC_DIS, "replace_calls2": ["janet_disasm__entry:janet_disasm", "janet_asm1__entry:janet_asm1"],
+     "checks": CHECKS, "unwind": 18, "unwinding_assertions": True, "timeout": 900, "object_bits": 10,
+     "assumes": A_DIS, "mutants": DIS_MUT})
 
 if __name__ == "__main__":
     out = os.path.join(VERIF, "units", "C09_asm.json")
